@@ -162,6 +162,9 @@ func (m *Discount) GetTotal() num.Amount {
 }
 
 func (m *Discount) removeIncludedTaxes(cat cbc.Code) *Discount {
+	if m == nil {
+		return nil
+	}
 	accuracy := defaultTaxRemovalAccuracy
 	rate := m.Taxes.Get(cat)
 	if rate == nil || rate.Percent == nil {
@@ -183,6 +186,9 @@ func calculateDiscounts(lines []*Discount, cur currency.Code, sum num.Amount, rr
 		return
 	}
 	for i, l := range lines {
+		if l == nil {
+			continue
+		}
 		l.Index = i + 1
 		if l.Percent != nil && !l.Percent.IsZero() {
 			base := sum
@@ -202,6 +208,9 @@ func calculateDiscountSum(discounts []*Discount, cur currency.Code) *num.Amount 
 	}
 	total := cur.Def().Zero()
 	for _, l := range discounts {
+		if l == nil {
+			continue
+		}
 		total = total.MatchPrecision(l.Amount)
 		total = total.Add(l.Amount)
 	}
@@ -210,7 +219,7 @@ func calculateDiscountSum(discounts []*Discount, cur currency.Code) *num.Amount 
 
 func (m *Discount) round(cur currency.Code) {
 	// Default round to currency, or use base if present
-	e := cur.Def().Subunits
+	e := cur.Def().Zero().Exp()
 	if m.Base != nil {
 		e = m.Base.Exp()
 	}
@@ -219,7 +228,9 @@ func (m *Discount) round(cur currency.Code) {
 
 func roundDiscounts(lines []*Discount, cur currency.Code) {
 	for _, l := range lines {
-		l.round(cur)
+		if l != nil {
+			l.round(cur)
+		}
 	}
 }
 
